@@ -150,7 +150,7 @@ def run(ctx):
             shutil.copy(m["input"], saved)
         what = "std/%s: configuration `%s` changes the result: clauses %s; input %s [%s], schedule %s\n  varied run: %s\n  base run:   %s" % (
             m.get("dec"), m.get("variant"), r["clauses"], os.path.basename(m.get("input", "?")), m.get("origin"), json.dumps(m.get("schedule")),
-            {k: v for k, v in r["event"].items() if k != "stderr_tail"}, be)
+            _short(r["event"]), be)
         ctx.violation(what, {"key": "%s:%s:%s" % (m.get("dec"), m.get("variant"), os.path.basename(m.get("input", "?")).split(".")[0]),
                              "decoder": m.get("dec"), "variant": m.get("variant"), "input_saved": saved, "clauses": r["clauses"],
                              "event": r["event"], "base_end": be, "job": stdtrace.job_line(dict(alljobs.get(r["job"], {}), **({"in": saved} if saved else {})))})
@@ -177,6 +177,11 @@ def run(ctx):
         "std/jpeg: SIMD vs portable IDCT compared on unmutated files only (documented exception)",
     ])
 
+
+
+def _short(ev):
+    """An event for a message: the recorded token / byte arrays are elided (the replay file keeps them)."""
+    return {k: (v if not (isinstance(v, list) and len(v) > 12) else v[:12] + ["... %d more" % (len(v) - 12)]) for k, v in ev.items() if k != "stderr_tail"}
 
 def replay(ctx, path):
     print(json.dumps(json.load(open(path))["replay"], indent=1)[:6000])
